@@ -80,8 +80,9 @@ impl<'a> Iterator for ChannelSpecIterator<'a> {
             lexical_core::parse_partial(self.chars.as_slice())
                 .map_err(|_| ErrorCode::ExpressionError)
                 .and_then(|(n, len)| {
-                    // Nothing parsed, e.g. an empty dimension `1!!2`
-                    if len == 0 {
+                    // Nothing parsed, e.g. an empty dimension `1!!2`, or only a sign `1!-!2`
+                    let parsed = &self.chars.as_slice()[..len];
+                    if !parsed.iter().any(u8::is_ascii_digit) {
                         return Err(ErrorCode::ExpressionError);
                     }
                     self.chars.nth(len - 1).unwrap();
